@@ -691,6 +691,13 @@ fn pick_next<M: AsRef<[Machine]>>(
 
     // next is blocking expiry, fundamental due to how we aggregate delay
     if b <= s && b <= i && b <= q {
+        // a BlockingBegin of this side that is queued for the very instant the
+        // blocking ends (blocking of zero length) is reported first, the
+        // BlockingEnd follows with the next pick
+        if let Some(begin) = sq.pop_blocking_begin(b_is_client, current_time + b) {
+            debug!("\tpick_next(): picked BlockingBegin queued for the end of blocking");
+            return Some(begin);
+        }
         debug!("\tpick_next(): picked blocking");
         #[cfg(feature = "verif")]
         verif::rec(|| verif::Rec::Pick {
@@ -982,7 +989,7 @@ fn do_scheduled_action<M: AsRef<[Machine]>>(
                 server.blocking_until
             };
             if is_client {
-                if replace || block > client.blocking_until.unwrap_or(a.time) {
+                if replace || client.blocking_until.map_or(true, |until| block > until) {
                     // ongoing blocking stays non-bypassable if any action that
                     // set or updated it did not allow bypass
                     client.blocking_bypassable = match client.blocking_until {
@@ -993,7 +1000,7 @@ fn do_scheduled_action<M: AsRef<[Machine]>>(
                 }
                 event_bypass = client.blocking_bypassable;
             } else {
-                if replace || block > server.blocking_until.unwrap_or(a.time) {
+                if replace || server.blocking_until.map_or(true, |until| block > until) {
                     server.blocking_bypassable = match server.blocking_until {
                         Some(_) => server.blocking_bypassable && bypass,
                         None => bypass,
